@@ -1192,21 +1192,25 @@ def g7_expat(fb, R, esc):
                     continue
 
                 def is_m(f, x, store_fields=store_fields):
-                    n = f.sn(x)
+                    n = f.nodes.get(_unwrap(f, x))
                     if n is None:
                         return False
                     if n.get('k') == 'call' and _method_name(n.get('q', '')) in ('(conv)', 'operator bool') and n.get('recv') is not None:
                         n = f.sn(n['recv'])
                     return n is not None and n.get('k') == 'member' and n.get('field') and n['name'] in store_fields
-                pe = classify_edges(h, truthy(is_m, want_true=False))
-                pe |= classify_edges(h, equals(is_m, lambda f, x: f.const_value(x) == 0 or (f.sn(x) or {}).get('null'), want_equal=True))
+                def is_null(f, x):
+                    return f.const_value(x) == 0 or any(f.nodes[y].get('null') or f.nodes[y].get('cls') == 'CXXNullPtrLiteralExpr' for y in f.subtree(x))
+
+                def empty_edges(f, is_m=is_m, is_null=is_null):
+                    return classify_edges(f, truthy(is_m, want_true=False)) | classify_edges(f, equals(is_m, is_null, want_equal=True))
+                pe = empty_edges(h)
                 w = reaches_unchecked(h, ['entry'], targets, pe)
                 if w is not None and h is not g:
                     # the test may sit in the caller on the chain (wrap() testing before it calls member_wrap())
                     ok_callers = True
                     sites = [(c2f, c2) for c2f in _noexcept_chain(fb, g) for c2 in c2f.all_nodes() if c2.get('k') == 'call' and c2.get('u') == h.usr]
                     for (c2f, c2) in sites:
-                        pe2 = classify_edges(c2f, truthy(is_m, want_true=False))
+                        pe2 = empty_edges(c2f)
                         if not pe2 or reaches_unchecked(c2f, ['entry'], [c2['id']], pe2) is not None:
                             ok_callers = False
                     if sites and ok_callers:
